@@ -236,7 +236,7 @@ VARIANTS = [
     ("mgm2_go_without_local_go", _M2, "        if msg.go:\n            if self._can_move:\n", "        if msg.go:\n            if self._can_move or self._committed:\n", "break", "R-PAIR"),
     ("mgm2_go_ignores_partner", _M2, "        if msg.go:\n            if self._can_move:\n", "        if True:\n            if self._can_move:\n", "break", "R-PAIR"),
     ("mgm2_go_msg_disagrees", _M2, "                self._can_move = False\n                self.post_msg(self._partner.name, Mgm2GoMessage(False))", "                self._can_move = False\n                self.post_msg(self._partner.name, Mgm2GoMessage(True))", "break", "R-PAIR"),
-    ("mgm2_commit_on_reject", _M2, "        else:\n            self._committed = False\n            if self.logger.isEnabledFor(logging.DEBUG):\n                self.logger.debug(\n                    f\"Offer refused", "        else:\n            self._committed = True\n            if self.logger.isEnabledFor(logging.DEBUG):\n                self.logger.debug(\n                    f\"Offer refused", "break", "R-PAIR"),
+    ("mgm2_commit_on_reject", _M2, "        else:\n            self._committed = False\n            if self.logger.isEnabledFor(logging.INFO):\n                self.logger.info(\n                    f\"Offer refused", "        else:\n            self._committed = True\n            if self.logger.isEnabledFor(logging.INFO):\n                self.logger.info(\n                    f\"Offer refused", "break", "R-PAIR"),
     ("mgm2_tie_without_self", _M2, "                    [k for k, v in self._neighbors_gains.items() if v == max_neighbors]\n                    + [self.name]\n                )", "                    [k for k, v in self._neighbors_gains.items() if v == max_neighbors]\n                )", "break", "R-EXCLUSIVE"),
     ("mgm2_clear_forgets_commit", _M2, "        self._committed = False\n        self._is_offerer = False\n        self._potential_gain = 0\n        self._potential_value = None\n        self.__nb_received_offers__ = 0", "        self._is_offerer = False\n        self._potential_gain = 0\n        self._potential_value = None\n        self.__nb_received_offers__ = 0", "break", "R-RESET"),
     ("mgm2_accept_any_sender", _M2, "                elif self._partner and sender == self._partner.name:", "                elif self._partner:", "break", "R-PAIR"),
